@@ -1069,16 +1069,19 @@ def judge_c19_group(cases, lab):
         a = c["a"]
         o = dec(a["o"])
         names = c["nodes"][-1]["names"]
-        # class-level calls = the union over members (the specification's dict collection)
-        for what, key in (("keys", "keys"), ("explain", "explain")):
+        # class-level calls = the union over the members' own calls (implementation against itself;
+        # a member whose call fails makes the class-level call fail)
+        member_objs = [g.obj[m] for m in c["nodes"][-1]["ms"]]
+        for what in ("keys", "explain"):
             fn = getattr(cls, what)
             got = observe.call(lambda: set(fn(copy.deepcopy(o))), lab)
-            exp = a[key]
-            if exp["ok"]:
-                if not got["ok"] or got["v"] != keyset(exp["ks"]):
-                    res.bad("class-" + what, "class %s() = %s, union over the members = %s" % (what, observe.describe(got), sorted(keyset(exp["ks"]))))
+            parts = [observe.call(lambda mo=mo: set(getattr(mo, what)(copy.deepcopy(o))), lab) for mo in member_objs]
+            if all(p_["ok"] for p_ in parts):
+                union = set().union(*[p_["v"] for p_ in parts])
+                if not got["ok"] or got["v"] != union:
+                    res.bad("class-" + what, "class %s() = %s, union over the members = %s" % (what, observe.describe(got), sorted(union)))
             elif got["ok"]:
-                res.bad("class-" + what, "class %s() succeeded with %s, a member fails with %s" % (what, sorted(got["v"]), exp["cls"]))
+                res.bad("class-" + what, "class %s() succeeded with %s although a member's %s() fails" % (what, sorted(got["v"]), what))
         gotv = observe.call(lambda: cls.validate(copy.deepcopy(o)), lab)
         if gotv["ok"] != a["validate"]["ok"]:
             res.bad("class-validate", "class validate(): %s, members: %s" % (observe.describe(gotv), "ok" if a["validate"]["ok"] else a["validate"]["cls"]))
@@ -1513,8 +1516,14 @@ def ill_typed(case):
     return any((not a[w]["ok"]) and a[w].get("cls") == "IllTyped" for w in ("eval", "validate", "keys", "explain"))
 
 
+STATEFUL_PROPS = ("C01", "C02", "C12", "C16", "C18", "C20")
+
+
 def judge_group(prop, cases, lab):
     cases = [c for c in cases if not ill_typed(c)]
+    if prop in STATEFUL_PROPS and any(c["a"].get("cacheslazy") for c in cases):
+        # a cache on the path stores a one-shot iterator (the specification's CachesLazy)
+        return [(c, Result()) for c in cases]
     if prop in GROUP_JUDGES:
         return GROUP_JUDGES[prop](cases, lab)
     return [(c, JUDGES[prop](c, lab)) for c in cases]
